@@ -301,8 +301,25 @@ def check_trim_twin(case, ctx):
                  'succeeds' % (lohi, type(e).__name__, e))
         return
     # the same region is kept (parametric area); the same triangles unless trim edges run along grid lines (there the rounding of
-    # the affine map decides on which side of a grid line a trim vertex lies: slivers of zero area may differ, the region may not)
-    ok = k0 == k1 and s0 == s1 and abs(A0 - A1) <= 1e-6 and (aligned or T0 == T1)
+    # the affine map decides on which side of a grid line a trim vertex lies: slivers of zero area may differ, the region may not).
+    # A triangle whose centroid lies ON the trim polygon is kept or dropped by a tie that rounding may break either way: such
+    # triangles (and their area) are left out of the comparison.
+    xs_, ys_ = sorted(set(q[0] for q in box)), sorted(set(q[1] for q in box))
+
+    def tri_area(t_):
+        return abs((t_[1][0] - t_[0][0]) * (t_[2][1] - t_[0][1]) - (t_[2][0] - t_[0][0]) * (t_[1][1] - t_[0][1])) / 2.0
+
+    def tie(t_):
+        cx, cy = sum(q[0] for q in t_) / 3.0, sum(q[1] for q in t_) / 3.0
+        on_v = any(abs(cx - x_) <= 1e-6 for x_ in xs_) and ys_[0] - 1e-6 <= cy <= ys_[-1] + 1e-6
+        on_h = any(abs(cy - y_) <= 1e-6 for y_ in ys_) and xs_[0] - 1e-6 <= cx <= xs_[-1] + 1e-6
+        return on_v or on_h or tri_area(t_) <= 1e-12
+    D0 = [t_ for t_ in T0 if t_ not in T1 and not tie(t_)]
+    D1 = [t_ for t_ in T1 if t_ not in T0 and not tie(t_)]
+    ties_ = sum(tri_area(t_) for t_ in T0 if t_ not in T1 and tie(t_)) - sum(tri_area(t_) for t_ in T1 if t_ not in T0 and tie(t_))
+    if ties_ != 0.0:
+        ctx.count('trim-twin-tie-triangles-ignored')
+    ok = k0 == k1 and s0 == s1 and abs((A0 - A1) - ties_) <= 1e-6 and (aligned or (not D0 and not D1))
     ctx.check(ok, 'trim-twin/differs', 'trimmed tessellation (%s trim %r, sample size %d, sense %s) on the knot range %r: %d trims, senses %r, '
               '%d faces, parametric area %.6f; normalised twin: %d trims, senses %r, %d faces, area %.6f'
               % ('grid-aligned' if aligned else 'generic', box[:4], n, 'detected' if detect else 'given %d' % rev, lohi, k1, s1, len(T1), A1,
